@@ -816,10 +816,10 @@ class Engine:
                 self.store_cell(st, dst[1], dst[2], mk_fop(op, a, b))
                 return ("unit",)
             return NotImplemented
-        if name.endswith("as std::cmp::PartialEq>::eq") or re.search(r"as std::cmp::PartialEq<.*>>::eq$", name):
+        if re.search(r"std::cmp::PartialEq.*::eq$", name):
             a, b = V(raw_args[0]), V(raw_args[1])
             return mk_eq(a, b)
-        if name.endswith("as std::cmp::PartialEq>::ne") or re.search(r"as std::cmp::PartialEq<.*>>::ne$", name):
+        if re.search(r"std::cmp::PartialEq.*::ne$", name):
             a, b = V(raw_args[0]), V(raw_args[1])
             return ("un", "Not", mk_eq(a, b))
         m = re.search(r"std::cmp::PartialOrd.*::(lt|le|gt|ge)$", name)
